@@ -242,6 +242,7 @@ class World:
                 "beta": state.get("meta", {}).get("beta"),
                 "bytes": self.sampler.serialize_checkpoint(state),
                 "n_beta": len(state["history"].beta),
+                "n_acc": len(state["history"].mcmc_acceptance),
                 "x": np.array(state["samples"].x, dtype=float),
             }
         )
@@ -506,7 +507,7 @@ def _replay_resume(cex, model, props, bad, tmp):
             elif route == "file":
                 continue
             res = World(cex, model, tag=f"r{k}", rng=CRng(model, "other", 77)).build()
-            res.kernel_offset = ck["n_beta"]
+            res.kernel_offset = ck["n_acc"]
             res.run(resume_from=src, checkpoint_callback=res.callback, checkpoint_every=1)
             bad += res.bad
             tag = f"[resume@{k}/{route}]"
@@ -551,7 +552,7 @@ def _replay_crash(cex, model, props, bad, tmp, ref):
                 continue
         if "C11" in props and exists:
             res = World(cex, model, tag=f"c{c}", rng=CRng(model, "other", 77)).build()
-            res.kernel_offset = len(pickle.loads(last)["history"].beta)
+            res.kernel_offset = len(pickle.loads(last)["history"].mcmc_acceptance)
             res.run(resume_from=path)
             compare(ref, res, bad, f"[crash@{c}/file]")
         out.append(c)
@@ -576,7 +577,25 @@ def _replay_cadence(cex, model, props, bad, tmp):
 def _replay_rng(cex, model, props, bad):
     cfg = cex["cfg"]
     g = CRng(model, "user", 0)
-    w = World(cex, model, rng=g).build().run()
+    if cfg.get("rng_via") == "aspire":
+        from aspire.aspire import Aspire
+
+        w = World(cex, model, rng=g)
+        a = Aspire(
+            log_likelihood=w.log_likelihood,
+            log_prior=w.log_prior,
+            dims=w.d,
+            parameters=[f"p{k}" for k in range(w.d)],
+            flow=w.flow(),
+            xp=np,
+        )
+        World.current = w
+        kw = dict(SCHEDULES[cfg["schedule"]])
+        kw["sampler_kwargs"] = {"n_steps": 1}
+        with np.errstate(all="ignore"):
+            a.sample_posterior(n_samples=w.N, sampler="smc", rng=g, preconditioning="none", **kw)
+    else:
+        w = World(cex, model, rng=g).build().run()
     if w.rng_constructed and "C20" in props:
         bad.append("C20: a fresh generator was constructed although the user supplied one")
     if g.used == 0 and "C20" in props:
